@@ -193,6 +193,7 @@ def _check_hermite(case):
     if L == 0 or not np.isfinite(float(L)):
         return [], dict(nontrivial=False, labels=["hermite:degenerate"])
     eps = float(np.finfo(dt).eps)
+    sub = 64 * float(np.finfo(dt).smallest_subnormal) / eps      # below the normal range rounding is absolute, not relative
     # Hermite data of the cubic P(u) = c0 + c1 u + c2 u^2 + c3 u^3,  u = (t - t0)/L, rounded to dtype
     p0 = c[0]
     p1 = (cl[0] + cl[1] + cl[2] + cl[3]).astype(dt)
@@ -230,13 +231,13 @@ def _check_hermite(case):
             got = np.asarray(H(t), dtype=LD)
             want = ref(ut)
             err = float(np.max(np.abs(got - want)))
-            if np.shape(H(t)) != shape or not (err <= 1e3 * eps * scale * amp):
+            if np.shape(H(t)) != shape or not (err <= 1e3 * eps * (scale + sub) * amp):
                 viols.append(V("hermite_value", "H(t0 + {:.6g} L) differs from the cubic through its own end data by {:.3e} (allowed {:.3e}); t0={}, L={}".format(
                     float(ut), err, 1e3 * eps * scale * amp, float(t0), float(L)), sig))
             gotg = np.asarray(H.grad(t), dtype=LD)
             wantg = dref(ut)
             errg = float(np.max(np.abs(gotg - wantg)))
-            tolg = 1e3 * eps * scale * amp / abs(float(L))
+            tolg = 1e3 * eps * (scale + sub) * amp / abs(float(L))
             if np.shape(H.grad(t)) != shape or not (errg <= tolg):
                 viols.append(V("hermite_grad", "H.grad(t0 + {:.6g} L) differs from the derivative of the cubic by {:.3e} (allowed {:.3e}); t0={}, L={}".format(
                     float(ut), errg, tolg, float(t0), float(L)), sig))
